@@ -139,7 +139,22 @@ def main():
         b = z3.Bool("value_eq_%d" % k)
         return b if m.group(1) == "eq" else z3.Not(b)
 
+    def m_opt_value_eq(e, m, a):
+        l, r = deref(e, a[0]), deref(e, a[1])
+        if l[0] != r[0]:
+            res = False
+        elif l[0] == "None":
+            res = True
+        else:
+            k = len([x for x in cur["events"] if x[0] == "value_eq"])
+            cur["events"].append(("value_eq",))
+            res = z3.Bool("value_eq_%d" % k)
+        if m.group(1) == "eq":
+            return res
+        return (not res) if isinstance(res, bool) else z3.Not(res)
+
     extern = [
+        (r"^<std::option::Option<&Value> as PartialEq>::(eq|ne)$", m_opt_value_eq),
         (r"^<Value as PartialEq>::(eq|ne)$", m_value_eq),
         (r"^Value::resolve$", m_resolve),
         (r"^context::Context::<'_>::new_inner_scope$", m_new_inner),
